@@ -467,11 +467,18 @@ func (node *DDL) walkSubtree(visit Visit) error {
 	if node == nil {
 		return nil
 	}
-	return Walk(
+	if err := Walk(
 		visit,
 		node.Table,
 		node.NewName,
-	)
+	); err != nil {
+		return err
+	}
+	if node.TableSpec != nil {
+		// column defaults and comments are literals of the statement too
+		return Walk(visit, node.TableSpec)
+	}
+	return nil
 }
 
 // Format formats the node.
@@ -647,6 +654,14 @@ func (ct *ColumnType) Format(buf *TrackedBuffer) {
 }
 
 func (ct *ColumnType) walkSubtree(visit Visit) error {
+	for _, val := range []*SQLVal{ct.Default, ct.OnUpdate, ct.Comment} {
+		if val == nil {
+			continue
+		}
+		if err := Walk(visit, val); err != nil {
+			return err
+		}
+	}
 	return nil
 }
 
